@@ -112,6 +112,39 @@ def run(ctx):
                 ctx.count('times_order_differs')
 
 
+    # failing-input search: the model and the code disagree but the property held on everything
+    # so far -- look deeper (bigger expression trees) for a concrete violation of the property
+    if ctx.disagreements and not ctx.violations:
+        import time
+        t_end = time.time() + (60 if ctx.tier == 'quick' else 600)
+        batch_reqs, batch_meta = [], []
+        k = 0
+        while time.time() < t_end and not ctx.violations:
+            n = rng.randint(2, 4)
+            p, q = build(rng, n, rng.randint(2, 4)), build(rng, n, rng.randint(2, 4))
+            wp, wq = wire(p), wire(q)
+            snap = (json.dumps(wp), json.dumps(wq))
+            try:
+                s_, t_ = p + q, p * q
+            except Exception as e:
+                ctx.violation({'kind': 'raises', 'exception': type(e).__name__}, 'polynomial operation raised', {'p': wp, 'q': wq})
+                break
+            k += 1
+            if (json.dumps(wire(p)), json.dumps(wire(q))) != snap:
+                ctx.violation({'kind': 'operand-mutated'}, f'an operand changed during + or *: p={p} q={q}',
+                              {'p': wp, 'q': wq, 'p_after': wire(p), 'q_after': wire(q)})
+                break
+            batch_reqs.append({'op': 'check.C09', 'p': wp, 'q': wq, 'n': n, 'sum': wire(s_), 'prod': wire(t_)})
+            batch_meta.append((wp, wq))
+            if len(batch_reqs) >= 200:
+                for (wp2, wq2), r in zip(batch_meta, ctx.drv.batch(batch_reqs)):
+                    if 'violation' in r:
+                        v = r['violation']
+                        ctx.violation({'kind': v['kind'], 'in': v.get('in')}, f'polynomials p={wp2} q={wq2}: {v}', {'p': wp2, 'q': wq2, 'detail': v})
+                batch_reqs, batch_meta = [], []
+        ctx.extra['failing_input_search_cases'] = k
+
+
 def replay(ctx, payload):
     from pymwp import Polynomial, Monomial
     inp = payload['input']
